@@ -304,6 +304,17 @@ def rule_windowsides(ctx):
                 if rng and diff:
                     good_e = True
                     why_e = "the estimate index j is emitted hi[j] - lo[j] times (np.repeat(arange, hi - lo))"
+    if not good_e:
+        # [j for j, (start, end) in enumerate(bounds) for _ in range(end - start)]
+        for x in tm.walk(he):
+            if x.op == "comp" and x.a[0] in ("list", "gen") and len(x.a[2]) == 2 and not x.a[3]:
+                rng = x.a[2][1]
+                if rng.op == "call" and call_name(rng) == "builtins.range" and len(rng.a[1]) == 1:
+                    ids = set(z.id for z in tm.walk(rng.a[1][0]))
+                    diff = rng.a[1][0].op == "bin" and rng.a[1][0].a[0] == "-" and seen["hi"].term.id in ids and seen["lo"].term.id in ids
+                    if diff and x.a[1].op == "idx":
+                        good_e = True
+                        why_e = "the estimate index j is emitted once per reference in its window (for _ in range(end - start))"
     yield ob("C05.INDEXSPACE", f, "util._fast_hit_windows:est-indices", good_e, why_e)
     lid = None
     for x in tm.walk(hr):
